@@ -33,6 +33,9 @@
 (*   "as_shipped"   binio.rs as pinned: `vec![0u8; len]` before reading    *)
 (*                  (lines 149, 177, 214, 242, 274) and                    *)
 (*                  `HashMap::with_capacity(max(len, 65536))` (line 412)   *)
+(*                  (the replay round-trips maps of 65535, 65536, 65537    *)
+(*                  and 200000 entries: the cap bounds the reservation,    *)
+(*                  never the number of entries read)                      *)
 (*                  -- violates C27_Alloc / C27_Outcome, finding F11       *)
 (*   "none_as_len0" mutant for the sensitivity of C28: Option<Bytes>::None *)
 (*                  written as length 0 (collides with Some(empty))        *)
